@@ -113,6 +113,7 @@ fn main() {
                 hist_len: argn(&args, "--hist-len", 60) as usize,
                 max_secs: argn(&args, "--max-secs", 600),
                 heapy: flag(&args, "--heapy"),
+                spread_directed: flag(&args, "--spread-directed"),
                 variant,
             };
             let out = match ctx.prop.as_str() {
@@ -163,6 +164,7 @@ fn main() {
             }
             println!("@@REPLAY {}", J::obj().set("violations", J::u(n as u64)).set("steps", J::u(r.steps_done)));
         }
+        "noop" => {}
         _ => {
             eprintln!("usage: cvh run|replay ...");
             std::process::exit(3);
